@@ -145,9 +145,9 @@ Proofs/PosVol.vos Proofs/PosVol.vok Proofs/PosVol.required_vos: Proofs/PosVol.v 
 Proofs/Uncrossed.vo Proofs/Uncrossed.glob Proofs/Uncrossed.v.beautified Proofs/Uncrossed.required_vo: Proofs/Uncrossed.v Model/Types.vo Model/Map.vo Model/Side.vo Model/Book.vo Model/Obs.vo Spec/RefBook.vo Proofs/Basic.vo Proofs/MapLemmas.vo Proofs/Refine.vo Proofs/Volumes.vo Proofs/Views.vo Proofs/Reload.vo Proofs/PosVol.vo
 Proofs/Uncrossed.vio: Proofs/Uncrossed.v Model/Types.vio Model/Map.vio Model/Side.vio Model/Book.vio Model/Obs.vio Spec/RefBook.vio Proofs/Basic.vio Proofs/MapLemmas.vio Proofs/Refine.vio Proofs/Volumes.vio Proofs/Views.vio Proofs/Reload.vio Proofs/PosVol.vio
 Proofs/Uncrossed.vos Proofs/Uncrossed.vok Proofs/Uncrossed.required_vos: Proofs/Uncrossed.v Model/Types.vos Model/Map.vos Model/Side.vos Model/Book.vos Model/Obs.vos Spec/RefBook.vos Proofs/Basic.vos Proofs/MapLemmas.vos Proofs/Refine.vos Proofs/Volumes.vos Proofs/Views.vos Proofs/Reload.vos Proofs/PosVol.vos
-Properties/C01.vo Properties/C01.glob Properties/C01.v.beautified Properties/C01.required_vo: Properties/C01.v Model/Types.vo Model/Map.vo Model/Side.vo Model/Book.vo Model/Obs.vo Spec/RefBook.vo Proofs/Ledger.vo Proofs/Refine.vo Proofs/RefProps.vo
-Properties/C01.vio: Properties/C01.v Model/Types.vio Model/Map.vio Model/Side.vio Model/Book.vio Model/Obs.vio Spec/RefBook.vio Proofs/Ledger.vio Proofs/Refine.vio Proofs/RefProps.vio
-Properties/C01.vos Properties/C01.vok Properties/C01.required_vos: Properties/C01.v Model/Types.vos Model/Map.vos Model/Side.vos Model/Book.vos Model/Obs.vos Spec/RefBook.vos Proofs/Ledger.vos Proofs/Refine.vos Proofs/RefProps.vos
+Properties/C01.vo Properties/C01.glob Properties/C01.v.beautified Properties/C01.required_vo: Properties/C01.v Model/Types.vo Model/Map.vo Model/Side.vo Model/Book.vo Model/Obs.vo Spec/RefBook.vo Proofs/Ledger.vo Proofs/Refine.vo Proofs/RefProps.vo Proofs/Volumes.vo Proofs/Reload.vo
+Properties/C01.vio: Properties/C01.v Model/Types.vio Model/Map.vio Model/Side.vio Model/Book.vio Model/Obs.vio Spec/RefBook.vio Proofs/Ledger.vio Proofs/Refine.vio Proofs/RefProps.vio Proofs/Volumes.vio Proofs/Reload.vio
+Properties/C01.vos Properties/C01.vok Properties/C01.required_vos: Properties/C01.v Model/Types.vos Model/Map.vos Model/Side.vos Model/Book.vos Model/Obs.vos Spec/RefBook.vos Proofs/Ledger.vos Proofs/Refine.vos Proofs/RefProps.vos Proofs/Volumes.vos Proofs/Reload.vos
 Properties/C02.vo Properties/C02.glob Properties/C02.v.beautified Properties/C02.required_vo: Properties/C02.v Model/Types.vo Model/Map.vo Model/Side.vo Model/Book.vo Model/Obs.vo Spec/RefBook.vo Proofs/Refine.vo Proofs/Volumes.vo Proofs/Views.vo Proofs/Reload.vo Proofs/PosVol.vo Proofs/Uncrossed.vo
 Properties/C02.vio: Properties/C02.v Model/Types.vio Model/Map.vio Model/Side.vio Model/Book.vio Model/Obs.vio Spec/RefBook.vio Proofs/Refine.vio Proofs/Volumes.vio Proofs/Views.vio Proofs/Reload.vio Proofs/PosVol.vio Proofs/Uncrossed.vio
 Properties/C02.vos Properties/C02.vok Properties/C02.required_vos: Properties/C02.v Model/Types.vos Model/Map.vos Model/Side.vos Model/Book.vos Model/Obs.vos Spec/RefBook.vos Proofs/Refine.vos Proofs/Volumes.vos Proofs/Views.vos Proofs/Reload.vos Proofs/PosVol.vos Proofs/Uncrossed.vos
